@@ -608,9 +608,19 @@ def r_token_names(repo, rep, R='R15.5'):
             if f[0] == 'attr' and f[2] == 'replace' and len(a) == 2 and all(x[0] == 'const' and isinstance(x[1], str) for x in a):
                 return re.escape(a[0][1]), a[1][1], f[1]
             return None
-        while step(t) is not None:
-            pat_, repl_, t = step(t)
-            subs.append((pat_, repl_))
+        while True:
+            st_ = step(t)
+            if st_ is not None:
+                pat_, repl_, t = st_
+                subs.append((pat_, repl_))
+                continue
+            # x.translate(str.maketrans({..})): one pass that replaces each listed character
+            base_, pairs_ = codec.replace_chain(t)
+            if pairs_ and base_ != t:
+                subs += [(re.escape(a_), b_) for a_, b_ in pairs_]
+                t = base_
+                continue
+            break
         chains.append((subs, t))
     rep.check(ok_prefix, R, w, 'normalize_token:prefix', 'the result always starts with an underscore (added unless already there)',
               'normalize_token can return a name without the leading underscore')
